@@ -93,6 +93,11 @@ def target_spec(name):
         fl = BASE + HOOKS + (["-O2"] if name == "enc_fast" else SAN + ["-O1"])
         units = [(f"{S}/enc/enc_main.cpp", "enc_main.o", fl), (f"{REPO}/art_internal.cpp", "art_internal.o", fl)]
         return "g++", units, ([] if name == "enc_fast" else SAN), ["enc"]
+    if name == "qsbr":
+        fl = BASE + HOOKS + SAN + ["-O1"]
+        units = [(f"{S}/conc_qsbr/qsbr_main.cpp", "qsbr_main.o", fl)]
+        units += [(f"{REPO}/{f}", f.replace(".cpp", ".o"), fl) for f in ["qsbr.cpp", "qsbr_ptr.cpp"]]
+        return "g++", units, SAN + ["-pthread"], ["sched", "conc_qsbr"]
     if name == "lock":
         fl = BASE + HOOKS + SAN + ["-O1"]
         units = [(f"{S}/conc_lock/lock_main.cpp", "lock_main.o", fl)]
@@ -574,6 +579,27 @@ def sched_replays(pid, exe, res, extra_args=None):
         if "# expect: fail" in head:
             continue
         n += 1
+        if path.endswith(".search.txt"):
+            # program + bounded schedule search (robust against step renumbering)
+            found = path + ".found"
+            try:
+                os.remove(found)
+            except OSError:
+                pass
+            p = subprocess.run([exe, "--prop", pid, "--search", path, "--dfs-p", "1", "--dfs-cap", "50000"] +
+                               (extra_args or []), capture_output=True, text=True, timeout=1800)
+            if p.returncode not in (0, 2):
+                dst_dir = os.path.join(FOUND, pid, "found")
+                os.makedirs(dst_dir, exist_ok=True)
+                dst = os.path.join(dst_dir, os.path.basename(path).replace(".search.txt", ".txt"))
+                if os.path.exists(found):
+                    shutil.move(found, dst)
+                    if confirm_replay(exe, ["--prop", pid] + (extra_args or []), dst):
+                        res.violations.append((dst, "regression: " + os.path.basename(path)))
+                else:
+                    shutil.copy(path, dst)
+                    res.violations.append((dst, f"regression (rc={p.returncode}): " + os.path.basename(path)))
+            continue
         rc, out = replay_once(exe, ["--prop", pid] + (extra_args or []), path)
         if rc != 0 and confirm_replay(exe, ["--prop", pid] + (extra_args or []), path):
             res.violations.append((path, out[-300:]))
@@ -639,7 +665,54 @@ def check_c07(pid, tier, seed):
     return finish(pid, res)
 
 
+QSBR_RULES = {
+    "C05": "case = one execution (program, schedule): programs of 2-4 QSBR threads over abstract objects with "
+           "operations {take a reference, drop references, retire (on_next_epoch_deallocate), quiescent, pause, "
+           "resume, await (harness-level ordering)} - a catalogue of epoch-change races plus generated programs - "
+           "under the deterministic scheduler (exhaustive DFS to a preemption bound, PCT, random walk); oracle at "
+           "every free notification: no thread holds a reference; every other thread registered at the request "
+           "has had a quiescent/pause call ending after it (in progress counts); immediate execution only with "
+           "<= 1 registered thread; non-trivial = a free happened while >= 2 threads were registered and the "
+           "schedule contains >= 1 preemption; distinct by hash(program, schedule)",
+    "C06": "same programs and schedules as C05, each followed by a deterministic drain (three rounds in which "
+           "every registered thread quiesces once; then all but one thread pause and the remaining one quiesces "
+           "twice); oracle: free notifications per retired block in {0,1} at all times and == 1 after the three "
+           "rounds, registered-thread count reported by QSBR == harness count whenever no pause/resume is in "
+           "flight, emptiness getters true and nothing unfreed after the final two quiescent states; non-trivial = "
+           ">= 1 request was orphaned (its requester paused before it was freed); distinct by hash(program, schedule)",
+}
+
+
+def check_qsbr(pid, tier, seed):
+    t0 = time.time()
+    exe = build("qsbr")
+    res = Result()
+    nrep = sched_replays(pid, exe, res)
+    outdir = os.path.join(WORK, "run", pid)
+    shutil.rmtree(outdir, ignore_errors=True)
+    os.makedirs(outdir)
+    if tier == "quick":
+        plans = [["--seed", str(seed * 1000 + i), "--programs", "30", "--dfs-p", "2" if i % 2 == 0 else "1",
+                  "--dfs-cap", "15000", "--pct", "40", "--rand", "40"] for i in range(NCPU)]
+    else:
+        plans = [["--seed", str(seed * 1000 + i), "--programs", "500", "--dfs-p", "2", "--dfs-cap", "60000",
+                  "--pct", "100", "--rand", "100"] for i in range(NCPU - 2)]
+        plans += [["--seed", str(seed * 1000 + 100 + i), "--programs", "12", "--dfs-p", "3", "--dfs-cap", "1500000",
+                   "--pct", "0", "--rand", "0"] for i in range(2)]
+    run_sched_workers(pid, exe, plans, outdir, res)
+    counters, distinct, samples = merge_stats(sched_stats_files(outdir, len(plans)))
+    cov = sched_coverage(pid, counters, distinct, samples, QSBR_RULES[pid], res, nrep)
+    cov["preemption_bound"] = "1-2 (quick), 2-3 (thorough)"
+    write_evidence(pid, tier, seed, "exploration", cov, time.time() - t0, len(res.violations),
+                   ["sequential consistency at the granularity of one hooked access of the QSBR state word and "
+                    "orphan lists", "thread start/exit are exercised as resume/pause (the same register_thread / "
+                    "unregister_thread code)", "statistics compiled out in this harness build"])
+    return finish(pid, res)
+
+
 CHECKS = {
+    "C05": check_qsbr,
+    "C06": check_qsbr,
     "C07": check_c07,
     "C11": check_enc,
     "C12": check_enc,
@@ -650,6 +723,8 @@ CHECKS = {
 }
 
 REPLAY = {
+    "C05": ("qsbr", lambda pid: ["--prop", pid]),
+    "C06": ("qsbr", lambda pid: ["--prop", pid]),
     "C07": ("lock", lambda pid: ["--prop", pid]),
     "C11": ("enc_san", lambda pid: ["--prop", pid]),
     "C12": ("enc_san", lambda pid: ["--prop", pid]),
@@ -670,7 +745,7 @@ def main():
     a = ap.parse_args()
     os.makedirs(WORK, exist_ok=True)
     if a.build_all:
-        for t in ["seq", "enc_fast", "enc_san", "lock"]:
+        for t in ["seq", "enc_fast", "enc_san", "lock", "qsbr"]:
             build(t)
         return 0
     seed = a.seed if a.seed is not None else int(os.environ.get("VERIF_SEED", "1") or 1)
